@@ -104,10 +104,12 @@ pub struct Painter { _p: u8 }
 impl Painter {
     /// ghost: the language has been looked up for the path of the line being handled
     pub uninterp spec fn language_is_of_this_path(&self) -> bool;
+    /// ghost: the highlighter has been made since the language was last looked up (no parse state of another file or section in it)
+    pub uninterp spec fn highlighter_is_fresh(&self) -> bool;
     #[verifier::external_body]
-    pub fn set_syntax(&mut self, filename: Option<&str>) ensures final(self).language_is_of_this_path() { unimplemented!() }
+    pub fn set_syntax(&mut self, filename: Option<&str>) ensures final(self).language_is_of_this_path(), !final(self).highlighter_is_fresh() { unimplemented!() }
     #[verifier::external_body]
-    pub fn set_highlighter(&mut self) ensures final(self).language_is_of_this_path() == old(self).language_is_of_this_path() { unimplemented!() }
+    pub fn set_highlighter(&mut self) ensures final(self).language_is_of_this_path() == old(self).language_is_of_this_path(), final(self).highlighter_is_fresh() { unimplemented!() }
 }
 pub struct StateMachine { pub painter: Painter }
 /// (R3) `Some(grep_line.path.as_ref())`
@@ -119,6 +121,8 @@ impl StateMachine {
     //@fromafter <<<&& line_number_jump;>>>
     //@until <<<self.state = State::Grep(>>>
     //@| requires new_path ==> !old(self).painter.language_is_of_this_path(),
+    //@| ensures new_path || new_section ==> final(self).painter.highlighter_is_fresh(),  // @C15,C16:the.highlighter.is.made.anew.for.every.new.file.and.every.new.section.of.grep.output.no.parse.state.is.carried.over
+    //@|         new_path ==> final(self).painter.language_is_of_this_path(),  // @C15,C16:the.hits.of.a.file.are.highlighted.in.the.language.of.that.file
     //@rewrite <<<Some(grep_line.path.as_ref())>>> => <<<verif_path_of(grep_line)>>>
     //@before <<<self.painter.set_highlighter()>>>| assert(/* @C15,C16:the.hits.of.a.file.are.highlighted.in.the.language.of.that.file.it.is.looked.up.before.the.highlighter.is.made */ new_path ==> self.painter.language_is_of_this_path());
 }
